@@ -1,14 +1,17 @@
 #!/bin/sh
-# run every registered quick (or $1) check sequentially; summary in /tmp/run_all.out
+# run every registered quick (or $1) check sequentially with VERIF_SEED (default 0); summary in /tmp/run_all_s$SEED.out
 tier=${1:-quick}
+seed=${VERIF_SEED:-0}
 cd /verif
-: > /tmp/run_all.out
+out=/tmp/run_all_s$seed.out
+mkdir -p /tmp/run_all_s$seed
+: > $out
 for f in checks.d/C*.json; do
   p=$(basename $f .json)
   s=$(date +%s)
-  timeout -s KILL 1800 ./check $p --tier $tier > /tmp/run_all_$p.log 2>&1
+  VERIF_SEED=$seed VERIF_NO_EVIDENCE=${VERIF_NO_EVIDENCE:-} timeout -s KILL 1800 ./check $p --tier $tier > /tmp/run_all_s$seed/$p.log 2>&1
   rc=$?
   e=$(date +%s)
-  echo "$p rc=$rc wall=$((e-s))s $(grep -c '^VIOLATION' /tmp/run_all_$p.log) violations $(grep -c '^KNOWN-FINDING' /tmp/run_all_$p.log) known" >> /tmp/run_all.out
+  echo "$p rc=$rc wall=$((e-s))s $(grep -c '^VIOLATION' /tmp/run_all_s$seed/$p.log) violations $(grep -c '^KNOWN-FINDING' /tmp/run_all_s$seed/$p.log) known" >> $out
 done
-echo DONE >> /tmp/run_all.out
+echo DONE >> $out
